@@ -443,3 +443,20 @@ func Addr(i int) netip.AddrPort {
 
 // CancelContext cancels the context the torrents were started with (the other way a loop stops).
 func (sw *Swarm) CancelContext() { sw.stop() }
+
+// AddMagnet adds a torrent by info-hash only; the geometry g describes what the
+// metadata will turn out to be (used by the remotes once it is known).
+func (sw *Swarm) AddMagnet(g *fixture.Geo, infoHash []byte) *Tor {
+	t, err := tor.ReadMagnet("", fmt.Sprintf("magnet:?xt=urn:btih:%x", infoHash))
+	if err != nil || t == nil {
+		panic(fmt.Sprintf("harness: cannot create magnet torrent: %v", err))
+	}
+	tr := &Tor{Sw: sw, T: t, Geo: g, Log: &SyncBuf{}}
+	t.Log = log.New(tr.Log, "", 0)
+	if _, err = tor.AddTorrent(sw.Ctx, t); err != nil {
+		panic(fmt.Sprintf("harness: AddTorrent: %v", err))
+	}
+	sw.Tors = append(sw.Tors, tr)
+	sw.Act("add magnet %x", infoHash[:4])
+	return tr
+}
